@@ -598,3 +598,66 @@ Proof.
   - destruct (znth _ _) as [x|] eqn:En; [|discriminate]. intros H; inversion H; subst x.
     split; [eapply znth_In; exact En|discriminate].
 Qed.
+
+(* ================================================================== exact characterisation of the carried generator *)
+(* the specification: walk down the receiver spine to the first constructor that fixes the generator *)
+Fixpoint gen_spec (w : world) (d : term) : genid :=
+  match d with
+  | TAgents | TByType _ => MODEL_GEN
+  | TSelect d _ _ | TSelectAll d | TShuffle d _ | TSort d _ | TGroup d _ | TCopy d => gen_spec w d
+  | TNew _ seeded => if seeded then MODEL_GEN else OTHER_GEN
+  | TSpaceAgents => w_sgen w
+  | TLegacyAgents => match legacy_agents w with [] => OTHER_GEN | _ => MODEL_GEN end
+  end.
+
+Fixpoint cgen_spec (w : world) (d : cterm) : genid :=
+  match d with
+  | CAll | CEmpties | CNbhd _ _ => w_sgen w
+  | CSelect d _ _ => cgen_spec w d
+  | CNew _ seeded => if seeded then MODEL_GEN else OTHER_GEN
+  end.
+
+Lemma gen_refines_spec w d c : eval w d = Ok c -> gen c = gen_spec w d.
+Proof.
+  revert c. induction d; intros c0 He; cbn [eval gen_spec] in *.
+  - inversion He; reflexivity.
+  - destruct (filter _ _); inversion He; reflexivity.
+  - destruct (eval w d) as [c1|e]; [|discriminate]. inversion He; subst; cbn. auto.
+  - auto.
+  - destruct (eval w d) as [c1|e]; [|discriminate].
+    destruct (shuffle_apply _ _); inversion He; subst; cbn. auto.
+  - destruct (eval w d) as [c1|e]; [|discriminate]. inversion He; subst; cbn. auto.
+  - destruct (eval w d) as [c1|e]; [|discriminate].
+    destruct (filter _ _); inversion He; subst; cbn. auto.
+  - auto.
+  - destruct (eval w d) as [c1|e]; [|discriminate]. inversion He; subst; cbn. reflexivity.
+  - inversion He; reflexivity.
+  - destruct (legacy_agents w); inversion He; reflexivity.
+Qed.
+
+Lemma cgen_refines_spec w d c : ceval w d = Ok c -> gen c = cgen_spec w d.
+Proof.
+  revert c. induction d; intros c0 He; cbn [ceval cgen_spec] in *.
+  - inversion He; reflexivity.
+  - inversion He; reflexivity.
+  - destruct (zassoc _ _); inversion He; reflexivity.
+  - destruct (ceval w d) as [c1|e]; [|discriminate].
+    destruct only_empty, at_most; inversion He; subst; cbn; auto.
+  - destruct (ceval w d) as [c1|e]; [|discriminate]. inversion He; subst; cbn. reflexivity.
+Qed.
+
+(* ================================================================== whole histories under re-ordered sets *)
+(* two histories that differ only in the order in which each move_to_empty saw the set of empties *)
+Inductive op_perm : op -> op -> Prop :=
+| op_perm_mte a pi pi' k tape : Permutation pi pi' -> op_perm (MoveToEmpty a pi k tape) (MoveToEmpty a pi' k tape)
+| op_perm_refl o : op_perm o o.
+
+Lemma history_perm_invariant ops ops' : Forall2 op_perm ops ops' ->
+  forall w, run_ops true w ops = run_ops true w ops' /\ final true w ops = final true w ops'.
+Proof.
+  induction 1 as [|o o' t t' Ho Ht IH]; intros w; cbn [run_ops final]; [split; reflexivity|].
+  assert (step true w o = step true w o') as Hs.
+  { destruct Ho as [a pi pi' k tape Hp|o]; [apply move_to_empty_perm_invariant; exact Hp|reflexivity]. }
+  rewrite Hs. destruct (step true w o') as [w' ob]. cbn [fst]. destruct (IH w') as [H1 H2].
+  split; [f_equal; exact H1|exact H2].
+Qed.
